@@ -1,0 +1,39 @@
+//go:build verif
+
+// Verification contracts (comments only; compiled only with -tags verif).
+// Checked by /verif/bin/govc; see /verif/DESIGN.md.
+
+package standard
+
+//@ // C03: the slot, epoch and wall-clock conversions agree with one another.
+//@ // Chain parameters delivered by a beacon node: at least one slot per epoch, whole seconds per slot (the spec
+//@ // value SECONDS_PER_SLOT is an integer number of seconds), and magnitudes far below the 64-bit range (at most
+//@ // 2^20 slots per epoch and 2^20 seconds per slot) so that their product cannot wrap.
+//@ type Service
+//@   valid self.slotsPerEpoch > 0 && self.slotsPerEpoch <= 1048576 && self.slotDuration >= 1000000000 && self.slotDuration <= 1048576000000000 && self.slotDuration % 1000000000 == 0
+//@
+//@ func (*Service).SlotToEpoch
+//@   ensures result == slot / s.slotsPerEpoch
+//@   // the epoch's first slot is at or before the slot, the next epoch's first slot is after it
+//@   ensures result * s.slotsPerEpoch <= slot && slot < (result + 1) * s.slotsPerEpoch
+//@   modifies nothing
+//@
+//@ func (*Service).FirstSlotOfEpoch
+//@   // no wrap-around of the 64-bit product
+//@   requires epoch * s.slotsPerEpoch <= 18446744073709551615
+//@   ensures result == epoch * s.slotsPerEpoch
+//@   // SlotToEpoch(FirstSlotOfEpoch(e)) == e
+//@   ensures result / s.slotsPerEpoch == epoch
+//@   modifies nothing
+//@
+//@ func (*Service).StartOfSlot
+//@   // the offset from genesis fits a time.Duration
+//@   requires slot <= 9223372036854775807 && slot * s.slotDuration <= 9223372036854775807
+//@   ensures ns(result) == ns(s.genesisTime) + slot * s.slotDuration
+//@   modifies nothing
+//@
+//@ func (*Service).StartOfEpoch
+//@   requires epoch * s.slotsPerEpoch <= 9223372036854775807 && epoch * s.slotsPerEpoch * s.slotDuration <= 9223372036854775807
+//@   // StartOfEpoch(e) == StartOfSlot(FirstSlotOfEpoch(e))
+//@   ensures ns(result) == ns(s.genesisTime) + (epoch * s.slotsPerEpoch) * s.slotDuration
+//@   modifies nothing
